@@ -42,6 +42,12 @@ func (e *enc) callWith(c *ssa.CallCommon, args []Val, site ssa.Instruction, pos 
 	fc, callee := e.v.contractForCall(c)
 	calleeName := e.v.calleeName(c)
 	short := shortCallee(calleeName)
+	if !c.IsInvoke() && len(c.Args) > 0 {
+		if gi, ok := e.guardOf[c.Args[0]]; ok {
+			mutating := fc == nil || fc.ModAll || len(fc.Modifies) > 0 || (!fc.HasMod && !fc.Trusted && !fc.Pure)
+			e.guardOblige(gi, mutating, "call "+short+" on "+gi.what, pos)
+		}
+	}
 	e.callOrd[short]++
 	ord := e.callOrd[short] - 1
 	// dynamic call: function value must not be nil
@@ -198,7 +204,9 @@ func (e *enc) callSiteEnv(fc *FuncContract, callee *ssa.Function, c *ssa.CallCom
 	}
 	for i, n := range names {
 		if i < len(args) {
-			vars[n] = args[i]
+			if _, clash := vars[n]; !clash {
+				vars[n] = args[i] // names of the enclosing function win; the callee's arguments are always argN
+			}
 			vars[fmt.Sprintf("arg%d", i)] = args[i]
 		}
 	}
@@ -691,6 +699,9 @@ func (e *enc) builtin(b *ssa.Builtin, c *ssa.CallCommon, site ssa.Instruction, p
 	args := e.callArgs(c)
 	switch b.Name() {
 	case "len":
+		if gi, ok := e.guardOf[c.Args[0]]; ok {
+			e.guardOblige(gi, false, "len of "+gi.what, pos)
+		}
 		a := args[0]
 		switch t := c.Args[0].Type().Underlying().(type) {
 		case *types.Basic:
@@ -720,6 +731,9 @@ func (e *enc) builtin(b *ssa.Builtin, c *ssa.CallCommon, site ssa.Instruction, p
 	case "copy":
 		return []Val{e.copyOp(c, args)}
 	case "delete":
+		if gi, ok := e.guardOf[c.Args[0]]; ok {
+			e.guardOblige(gi, true, "delete from "+gi.what, pos)
+		}
 		m, k := args[0], args[1]
 		mt := c.Args[0].Type().Underlying().(*types.Map)
 		dom, _, ln, _, _ := e.mapNames(mt)
